@@ -5,7 +5,7 @@ from . import parts
 
 def run(tier):
     ck = common.Check('C01', tier)
-    res = parts.run_parts(ck, tier, ir_parts=('ir_laws',), rule_filter=lambda part, x: x.rule != 'R03.7')
+    res = parts.run_parts(ck, tier, ir_parts=('ir_laws',), rule_filter=lambda part, x: x.rule not in ('R03.7', 'R03.8'))
     r = res.get('ir_laws', [])
     decided = sum(x['res']['decided'] for x in r)
     undecided = sum(x['res']['undecided_paths'] for x in r)
